@@ -6,7 +6,7 @@ import json, sys
 CHECKS = {
  "C12": ("fault_enumeration",
          "runtime fault injection through harness-supplied writer / reader / fetcher / registry client / finders at every position, with return-value, recovered-panic, directory-copy (crash point) and diagnostic-content oracles",
-         "Every single failure position is enumerated per stream or build: each write offset of Pack's writer (error required), each read offset of Unpack's reader as error and as clean EOF (success only with the complete tree), 16 Unpack policy refusals and 7 Pack policy refusals, incl. cycles found one and two dereferenced directories down (must be IllegalSlugError), each fetcher / registry / finder call of generated builds in all applicable fault modes (and all pairs in the thorough tier): error diagnostic from the Add call that ran it, all Builder methods refuse afterwards, no Bundle, directory does not open; warnings and errors of finders reach caller and tracer intact with file names rewritten; the target directory is copied and opened at every callback entry and exit; read-only target directory at every position as an unprivileged user.",
+         "Every single failure position is enumerated per stream or build: each write offset of Pack's writer (error required), each read offset of Unpack's reader as error and as clean EOF (success only with the complete tree), 16 Unpack policy refusals and 7 Pack policy refusals, incl. cycles found one and two dereferenced directories down (must be IllegalSlugError), each fetcher / registry / finder call of generated builds in all applicable fault modes (plain errors, errors after partial content, errors wrapping context.DeadlineExceeded / Canceled, error and warning diagnostics; all pairs in the thorough tier), each faulted build under a call budget of 4x the fault-free build: error diagnostic from the Add call that ran it, all Builder methods refuse afterwards - also the retried calls of the failed build -, no Bundle, directory does not open; warnings and errors of finders reach caller and tracer intact with file names rewritten, and after a mere warning the bundle is the whole closure; the target directory is copied and opened at every callback entry and exit; read-only target directory at every position as an unprivileged user.",
          "Faults are injected at the public boundary only; failures inside go-slug's own filesystem calls are reached through the read-only-directory phase, not per syscall (the strace injector of the design was not built).",
          "DESIGN.md §5 C12"),
  "C13": ("exploration",
@@ -26,13 +26,13 @@ CHECKS = {
          "DESIGN.md §5 C10"),
  "C18": ("exploration",
          "runtime monitor over harness-written manifests: directory-name refusal, containment of every lookup answer, inverse and stability of forward / reverse lookups, refusal of foreign paths",
-         "Field-wise manifests (exhaustive over a 30-name hostile directory alphabet x 3 shapes incl. aliases of equal length), PRNG manifests and structure- / byte-mutated manifests of real builds are written into a bundle root; whenever OpenDir accepts one, the four clauses of the property are checked over all listed packages and registry versions, 8 in-package path shapes in two spellings and 7 foreign paths. 188 documents kept by coverage-guided fuzzing campaigns are replayed; thorough adds a native go test -fuzz run of OpenDir with the lookup assertions.",
+         "Field-wise manifests (exhaustive over a 30-name hostile directory alphabet x 3 shapes incl. aliases of equal length), PRNG manifests and structure- / byte-mutated manifests of real builds are written into a bundle root; whenever OpenDir accepts one, the four clauses of the property are checked over all listed packages and registry versions, 13 in-package path shapes (5 of them through links that exist on disk below the package directory) in two spellings and 7 foreign paths; every listed package is also looked up through text with 8 hostile sub-paths and through addresses derived by relative resolution with 6 climbing operands. 188 documents kept by coverage-guided fuzzing campaigns are replayed; thorough adds a native go test -fuzz run of OpenDir with the lookup assertions.",
          "The harness learns the document's directory names by decoding it leniently itself.",
          "DESIGN.md §5 C18"),
  "C08": ("exploration",
          "runtime monitor: real Builder driven by scripted fetcher/registry/finders; bundle lookups and files vs a reference closure computed by independent harness code; exhaustive small worlds + PRNG worlds",
          "Each scripted world is built with the real Builder; a reference closure (harness path algebra and version choice) lists every source that must be resolvable. For every closure source the lookup must succeed, lie inside the bundle directory and show exactly the fetched content; registry lookups must equal the lookup of the named remote address joined with the sub-path; package metadata, registry versions, source addresses and deprecations must be retrievable unchanged. Exhaustive over 2 x 19683 three-location worlds (every 9th in quick) plus PRNG worlds with aliasing content, cycles, diamonds, several finders.",
-         "Fault-free worlds only; finders identify content by a marker file.",
+         "Fault-free worlds only (in a third of them finder runs also raise warnings, which are not faults); finders identify content by a marker file.",
          "DESIGN.md §5 C08"),
  "C14": ("exploration",
          "offline checker over the recorded callback + BuildTracer event log: exactly-once counting against the reference closure and a per-key bracket automaton; logical termination bound",
@@ -42,7 +42,7 @@ CHECKS = {
  "C17": ("exploration",
          "runtime monitor: registry client call log and bundle accessors vs a brute-force newest-allowed choice (own semver precedence); exhaustive listing orders x allowed sets",
          "Every ordered list of <=3 (quick, every 3rd) / <=4 (thorough) versions of a 10-version universe x 12 allowed sets, multi-request builds through all three Add entry points and finder-reported dependencies, and the C08 worlds: the version whose source the builder requests, the versions and deprecations recorded in the bundle must match the brute-force maximum of offered-and-allowed; unsatisfiable requests must produce an error.",
-         "Membership is asked of the caller's versions.Set.",
+         "Membership is asked of the caller's versions.Set. Generated worlds include one module path offered by two registry hosts with different version lists.",
          "DESIGN.md §5 C17"),
  "C16": ("exploration",
          "runtime differential monitor (decoded slug vs baseline) over spellings / working directories / symlinked roots / call histories, and the Go race detector over concurrent Pack calls",
@@ -56,12 +56,12 @@ CHECKS = {
          "DESIGN.md §5 C03"),
  "C15": ("exploration",
          "runtime reference interpreter of the entry list vs the destination tree read back with Lstat/Readlink; exhaustive short sequences x tar formats x privilege",
-         "A reference interpreter reads each entry sequence into an abstract tree (last entry per path wins, implicit parents without metadata, directory metadata final); the real Unpack runs as root and as uid 65534 inside a chroot and the destination is compared field by field (kind, content, permission bits, mtime, link target, no extra paths). Conflict-free representable sequences must unpack; hard link / device / fifo entries (also inserted at every position of PRNG sequences) must make it fail. Entry sequences kept by coverage-guided fuzzing campaigns (harness/corpus) are replayed under the same oracle; header records (PAX 'g') must have no effect on the destination.",
+         "A reference interpreter reads each entry sequence into an abstract tree (last entry per path wins, implicit parents without metadata, directory metadata final); the real Unpack runs as root and as uid 65534 inside a chroot and the destination is compared field by field (kind, content, permission bits, mtime, link target, no extra paths). Conflict-free representable sequences must unpack; hard link / device / fifo entries (also inserted at every position of PRNG sequences) must make it fail. Entry sequences kept by coverage-guided fuzzing campaigns (harness/corpus) are replayed under the same oracle; header records (PAX 'g') must have no effect on the destination; an entry that re-uses the path of an earlier link must replace it if the archive is accepted; the destination is written in 8 spellings.",
          "Sequences whose sequential reading is itself undefined (entry over an existing link, file vs directory conflicts) are counted but not judged; implicit parents' metadata, symlink mtimes and the destination root are not compared.",
          "DESIGN.md §5 C15"),
  "C02": ("exploration",
          "runtime round-trip monitor: materialise tree, real Pack + Unpack, recursive Lstat/Readlink/content comparison; generated trees + exhaustive mode and mtime sweeps x options x privilege",
-         "Generated trees (odd names, all 512 file modes, read-only and empty directories, fractional / extreme mtimes, in-tree relative links of every shape) are packed with all four option sets and unpacked into an empty directory as root and as an unprivileged uid; source and result are read back independently and compared on path set, kind, content, permission bits, link target and mtime rounded to the second. An exhaustive phase plants .terraform/modules (re-included by the default rules) with 4 modes x 4 contents x 3 depths beside excluded siblings.",
+         "Generated trees (odd names, all 512 file modes, read-only and empty directories, fractional / extreme mtimes, in-tree relative links of every shape) are packed with all four option sets and unpacked into an empty directory as root and as an unprivileged uid; source and result are read back independently and compared on path set, kind, content, permission bits, link target and mtime rounded to the second. The destination is written in 8 spellings (clean, trailing separator, dot segments, relative, '.'); one phase packs and unpacks 360 files while the process may hold 64 descriptors. An exhaustive phase plants .terraform/modules (re-included by the default rules) with 4 modes x 4 contents x 3 depths beside excluded siblings.",
          "Root's own metadata and symlink mtimes are not compared; trees in which a link is led outside by another link are outside the universe (C05 owns them); unprivileged trees keep owner read/search permission.",
          "DESIGN.md §5 C02"),
  "C05": ("exploration",
@@ -76,7 +76,7 @@ CHECKS = {
          "DESIGN.md §5 C20"),
  "C01": ("exploration",
          "runtime snapshot-diff monitor (incl. ctime/inode/content hash) around Unpack in a chroot arena; exhaustive short entry sequences + PRNG + reader faults at every offset",
-         "Each hostile archive is unpacked by the real Unpack inside a chroot whose every path outside dst is snapshotted before and after the call (type, mode, owner, size, nlink, inode, mtime, ctime, link target, content hash); any difference, on success or error, is a violation. Sequences: all singles x 4 arenas x 10 allow-lists, all pairs (quick) / triples (thorough) of a 50-entry alphabet covering every name/target shape x type, all triples of a 28-entry alphabet of cooperating entries, PRNG sequences, link-focused sequences, entry sequences kept by coverage-guided fuzzing campaigns, a Packer reused for a second destination with destination-relative allow-list entries, 7 spellings of dst, and streams with the reader failing or ending at every byte offset (incl. inside the body of a large file for every arena x spelling). Thorough adds a native go test -fuzz run (80000 executions, containment assertion).",
+         "Each hostile archive is unpacked by the real Unpack inside a chroot whose every path outside dst is snapshotted before and after the call (type, mode, owner, size, nlink, inode, mtime, ctime, link target, content hash); any difference, on success or error, is a violation. Sequences: all singles x 4 arenas x 10 allow-lists, all pairs (quick) / triples (thorough) of a 50-entry alphabet covering every name/target shape x type, all triples of a 28-entry alphabet of cooperating entries, PRNG sequences, link-focused sequences, entry sequences kept by coverage-guided fuzzing campaigns, a Packer reused for a second destination with destination-relative allow-list entries (also after a first call that broke off half way), a second Unpack into the same destination (same or fresh Packer) with entries arriving where the first call left links, 1-4 links led outside by another link in one archive with and without a refused entry behind them, 7 spellings of dst, and streams with the reader failing or ending at every byte offset (incl. inside the body of a large file for every arena x spelling). Thorough adds a native go test -fuzz run (80000 executions, containment assertion).",
          "Root inside a chroot on tmpfs; atime ignored; pre-populated dst has no symlinks.",
          "DESIGN.md §5 C01"),
  "C04": ("exploration",
